@@ -86,6 +86,11 @@ func (iv *Value) ValueFrom(value any) {
 		return
 	}
 
+	if value == nil && (iv.ItemType == ItemTypeArray || iv.ItemType == ItemTypeObject) {
+		// reflect.TypeOf(nil) is nil: nothing to encode for a nil value
+		return
+	}
+
 	switch iv.ItemType {
 	case ItemTypeString:
 		v, ok := value.(string)
